@@ -283,7 +283,9 @@ func runInexactBounds(c *Ctx, r *Rep) {
 }
 
 func init() {
-	floatTypes := func(t string) bool { return t == "Float" || t == "Complex" || t == "Int" || t == "BigInt" || t == "Bool" }
+	floatTypes := func(t string) bool {
+		return t == "Float" || t == "Complex" || t == "Int" || t == "BigInt" || t == "Bool"
+	}
 	register(&Rule{ID: "C15.R4", Prop: "C15", Floor: 4,
 		Doc: "binary-operator protocol in the numeric types: a method that converts its operand with a raising Make* helper answers a TypeError with NotImplemented, so that mixed int/float/complex arithmetic reaches the reflected method of the wider type",
 		Run: func(c *Ctx, r *Rep) { runNotImplementedDiscipline(c, r, floatTypes) }})
